@@ -23,7 +23,7 @@ Qed.
 Example C04_nonvacuous :
   let f := utf8_encode [105;110;102;111;33;40;34;98;34;41;59] in
   let rc := mkRunCfg (mkConfig false [([108;111;103], [105;110;102;111])]) true in
-  let o := mkOracle None None (fun _ => false) (fun _ => false) (fun _ => FNone) false in
+  let o := mkOracle None None (fun _ => false) (fun _ => false) (fun _ => FNone) LkOk in
   ro_exit (check rc [f] o) = XErr /\ ro_total (check rc [f] o) = Some 1.
 Proof. vm_compute. split; reflexivity. Qed.
 
